@@ -15,7 +15,7 @@ class RecoverSuite:
 
     def execute(self, workdir, tag="rc"):
         impl = lib.run_sharded(lib.RVH, self.harness_suite, self.cases, workdir, tag + "i",
-                               extra_env={"RVH_CASE_TIMEOUT": "600"})
+                               extra_env={"RVH_CASE_TIMEOUT": "240"})
         mcases, index = [], {}
         for c in self.cases:
             cid = c.split(" ", 1)[0]
